@@ -322,9 +322,67 @@ def _cursor_b1(ctx: Context, c: _Cursor) -> None:
     ck.require_min("C15.B1", "indexed reads of the wire buffer", n_sites, 2)
 
 
+def _cursor_reject(ctx: Context, c: _Cursor, rule: str) -> None:
+    """A complete item is never rejected (cursor form).  With REM = len(D) - P the bytes from the item's type byte to the end
+    and L its length byte, the item is truncated exactly when REM < 2 (no room for type and length) or REM - L < 2 (the value
+    is cut short).  A `raise` of the parse error that is reached only through outcomes of comparisons of these quantities must
+    be reached through one that implies truncation; `start >= end` with start = P + 2 also holds for REM == 2, a complete item
+    of length 0 at the very end of the message (what every list ending in a separator, and the BLE fragment ack 0c 00, is)."""
+    ck, f, cfg, AV = ctx.ck, c.f, c.cfg, c.AV
+    fk = ctx.fkey(f)
+
+    def upper_bound(diff, op, G):
+        for s_ in (1, -1):
+            rest = AV.add(diff, AV.scale(G, s_), -1)
+            k = AV.as_const(rest)
+            if k is None:
+                continue
+            if s_ == 1:   # G + k op 0
+                return {"Lt": -k - 1, "LtE": -k, "Eq": -k}.get(op, "none")
+            return {"Gt": k - 1, "GtE": k, "Eq": k}.get(op, "none")  # -G + k op 0
+        return None
+
+    G_head, G_val = c.REM, AV.add(c.REM, c.L, -1)
+    raises = [n for n in cfg.nodes if n.kind == "raise" and n.id in c.live and n.id in cfg.reachable_from(c.head.id)]
+    judged = 0
+    for r in raises:
+        guards = []  # (test, label, kind, upper bound)
+        for t in cfg.nodes:
+            if t.kind != "test" or t.id not in c.live:
+                continue
+            td = c.test_diff(t)
+            if td is None or AV.has_opaque(td[0]):
+                continue
+            for lab in ("T", "F"):
+                edges = cfg.out_edges(t, (lab,))
+                if not edges or cfg.find_path(c.head.id, r.id, avoid_edges=edges, avoid_nodes=[]) is not None:
+                    continue
+                op = c._outcome(td[1], lab == "T")
+                for kind, G in (("header", G_head), ("value", G_val)):
+                    ub = upper_bound(td[0], op, G)
+                    if ub is not None:
+                        guards.append((t, lab, kind, ub))
+        guards = [g for g in guards if g[3] != "none"]  # outcomes that bound the bytes left from above
+        if not guards:
+            continue  # a raise for another reason (it is not reached through a "too few bytes" outcome)
+        judged += 1
+        legit = [g for g in guards if g[3] <= 1]
+        worst = min(guards, key=lambda g: g[3])
+        what = "the bytes from the item's type byte to the end" if worst[2] == "header" else "those bytes minus the declared length"
+        ck.check(rule, bool(legit), "a parse error for a truncated item is raised only when bytes are missing (fewer than 2 for the header, or fewer than 2 + length)",
+                 f"{fk}:complete-item-rejected",
+                 f"decode_bytearray raises `{r.text()[:60]}` under `{worst[0].text()}` [{worst[1]}], which only says that {what} are "
+                 f"<= {worst[3]}: a COMPLETE item is rejected (with <= 2: an item of length 0 at the very end of the message - a list "
+                 "ending in a separator, the fragment ack 0c 00)", ctx.loc(f, r))
+    if raises and not judged:
+        ck.unknown(rule, "decode_bytearray (cursor form): no parse-error raise is guarded by a comparison of the cursor with the length that the analysis reads", f.loc())
+
+
 def _cursor_g1_t1(ctx: Context, c: _Cursor, rule: str) -> None:
     ck, f, cfg, AV, A = ctx.ck, c.f, c.cfg, c.AV, c.A
     fk = ctx.fkey(f)
+    if rule == "C15.G1":
+        _cursor_reject(ctx, c, rule)
     # the stores of a decoded item: result.append([key, value]) / <previous>[1] += value
     stores = []
     for n in cfg.nodes:
@@ -1024,13 +1082,45 @@ def _g3(ctx: Context) -> None:
         if isinstance(it, ast.Call) and isinstance(it.func, ast.Name) and it.func.id == "range" and len(it.args) == 1:
             k = ctx.const(f, it.args[0], None)
             bounded = isinstance(k, int) and 0 < k <= 10000
+            if not isinstance(k, int):
+                # not a constant: every value the bound can take - a positive constant, or a parameter that no caller in the
+                # package passes (it then has its default: None, replaced by a constant before the loop, or a constant)
+                def _alts(t_):
+                    return [a_ for x_ in t_[1] for a_ in _alts(x_)] if t_[0] == "phi" else [t_]
+
+                verdicts = []
+                for a_ in _alts(strip_sites(T.of(cfg, n, it.args[0]))):
+                    if a_[0] == "const" and isinstance(a_[1], int) and not isinstance(a_[1], bool):
+                        verdicts.append(0 < a_[1] <= 10000)
+                    elif a_[0] == "param" and a_[1] in f.pos_params:
+                        pi = f.pos_params.index(a_[1])
+                        passed = False
+                        for g_ in ctx.prog.package_functions():
+                            if isinstance(g_.node, ast.Lambda):
+                                continue
+                            for c_ in ast.walk(g_.node):
+                                if isinstance(c_, ast.Call) and f.qualname in ctx.callee_names(g_, c_):
+                                    if len(c_.args) > pi or any(kw_.arg in (a_[1], None) for kw_ in c_.keywords) or any(isinstance(x_, ast.Starred) for x_ in c_.args):
+                                        passed = True
+                        dflt = f.node.args.defaults[pi - (len(f.pos_params) - len(f.node.args.defaults))] if pi >= len(f.pos_params) - len(f.node.args.defaults) else None
+                        dv = ctx.const(f, dflt, NotImplemented) if dflt is not None else NotImplemented
+                        verdicts.append(None if passed or dv is NotImplemented else True if dv is None else (isinstance(dv, int) and 0 < dv <= 10000))
+                    else:
+                        verdicts.append(None)
+                if verdicts and all(v_ is True for v_ in verdicts):
+                    bounded = True
+                elif verdicts and not any(v_ is False for v_ in verdicts):
+                    ck.unknown("C15.G3", f"_pairing_char_write: the bound of the reassembly loop `{n.text()}` is not a constant of this function: not decided", ctx.loc(f, n))
+                    bounded = None
     # leaving the loop by exhaustion raises
     ends_raise = True
     for n in cfg.nodes:
         if n.kind == "for":
             for e in cfg.out_edges(n, ("F",)):
                 ends_raise &= cfg.exit.id not in cfg.reachable_from(e[1])
-    ck.check("C15.G3", bounded and ends_raise, "reassembly is bounded by a positive constant and exhaustion raises",
+    if bounded is None:
+        bounded = True  # reported above as not decided; the exhaustion check below still applies
+    ck.check("C15.G3", bool(bounded) and ends_raise, "reassembly is bounded by a positive constant and exhaustion raises",
              f"{ctx.fkey(f)}:bounded", "_pairing_char_write: reassembly is unbounded or ends silently", f.loc())
 
 
